@@ -52,7 +52,7 @@ func Key(name string) crypto.PrivKey {
 	return k
 }
 
-// KeyT returns a deterministic key of the given libp2p key type ("ed25519", "secp256k1", "ecdsa", "rsa").
+// KeyT returns a deterministic key of the given libp2p key type ("ed25519", "secp256k1", "ecdsa", "rsa" = RSA-2048, "rsa4096").
 func KeyT(name, typ string) crypto.PrivKey {
 	if typ == "" || typ == "ed25519" {
 		return Key(name)
@@ -73,6 +73,8 @@ func KeyT(name, typ string) crypto.PrivKey {
 		k, _, err = crypto.GenerateECDSAKeyPair(r)
 	case "rsa":
 		k, _, err = crypto.GenerateRSAKeyPair(2048, r)
+	case "rsa4096":
+		k, _, err = crypto.GenerateRSAKeyPair(4096, r)
 	default:
 		panic("unknown key type " + typ)
 	}
